@@ -294,6 +294,10 @@ pub const CONTEXTS: &[(bool, &[(&str, &str)])] = &[
     (false, &[("GIT_LITERAL_PATHSPECS", "1")]),
     (false, &[("GIT_PREFIX", "")]),
     (false, &[("GIT_REFLOG_ACTION", "custom action")]),
+    // (the pseudo-variable GAIV_STDIN_TTY is interpreted by the harness, not exported:
+    // standard input is a terminal while stdout/stderr are captured)
+    (false, &[("GAIV_STDIN_TTY", "1")]),
+    (false, &[("GAIV_STDIN_TTY", "1")]),
 ];
 
 pub fn gen_argv(cmd: u8, flags: &[u8], target: u8, tail: u8) -> Vec<&'static str> {
@@ -352,7 +356,12 @@ struct Twin {
 }
 
 fn setup(mode: Mode, hooks: u8) -> Twin {
-    let mut sb = Sandbox::new(mode);
+    // production defaults for everything that decides what the wrapper prints (`quiet` unset)
+    let mut cfg = crate::sandbox::default_git_ai_config();
+    if let Some(o) = cfg.as_object_mut() {
+        o.remove("quiet");
+    }
+    let mut sb = Sandbox::with_config(mode, cfg);
     let repo = sb.root.join("repo");
     let remote = sb.root.join("remote.git");
     std::fs::create_dir_all(repo.join("sub")).unwrap();
@@ -551,10 +560,38 @@ fn run_git_full(t: &mut Twin, tpl: &[&str], stdin: Option<&[u8]>, in_sub: bool, 
     }
     let a: Vec<&str> = args.iter().map(|s| s.as_str()).collect();
     let r = if in_sub && t.repo.join("sub").is_dir() { t.repo.join("sub") } else { t.repo.clone() };
-    t.sb.git_in_notick_full(&r, &a, stdin, env)
+    let tty = env.iter().any(|(k, _)| *k == "GAIV_STDIN_TTY");
+    let env: Vec<(&str, &str)> = env.iter().filter(|(k, _)| *k != "GAIV_STDIN_TTY").cloned().collect();
+    crate::sandbox::STDIN_TTY.with(|c| c.set(tty));
+    let o = t.sb.git_in_notick_full(&r, &a, stdin, &env);
+    crate::sandbox::STDIN_TTY.with(|c| c.set(false));
+    o
 }
 
 pub fn run(case: &Case) -> CaseReport {
+    let rep = run_once(case);
+    if rep.violations.is_empty() {
+        return rep;
+    }
+    // git's own output occasionally depends on timing (racily-clean index entries decide
+    // whether `add -v` / `status` re-examine a file): a difference counts only if two fresh
+    // pairs of twins show it again at the same step with the same signature
+    let key = |r: &CaseReport| r.violations.first().map(|v| (v.sig.clone(), v.detail.split('`').take(2).collect::<Vec<_>>().join("`")));
+    let k0 = key(&rep);
+    for _ in 0..2 {
+        let again = run_once(case);
+        if key(&again) != k0 {
+            let mut quiet = again;
+            quiet.violations.clear();
+            quiet.count("differences_not_reproduced_on_rerun", 1);
+            quiet.class("difference-not-reproduced-on-rerun");
+            return quiet;
+        }
+    }
+    rep
+}
+
+fn run_once(case: &Case) -> CaseReport {
     let mut rep = CaseReport::default();
     let mut a = setup(Mode::Plain, case.hooks);
     // B starts from a byte copy of A's repository state so that both are identical
@@ -690,7 +727,7 @@ pub fn spec() -> Spec<Case> {
     Spec {
         id: "C06",
         level: "exploration",
-        rule: "twin sandboxes (A: real git, B: the git-ai wrapper) built identically - three files, a bare remote, configured aliases (plain, recursive, shell), a generated subset of user hooks (pre-commit, commit-msg, post-commit, post-checkout, post-merge, pre-rebase, post-rewrite; pre-commit optionally failing every other time) that log their arguments outside the repository - then 5-25 steps: git command lines drawn from (a) a table of ~170 templates (porcelain, plumbing, global options, aliases, remote operations, and deliberately invalid invocations), (b) a table of 35 commands that read standard input (--pathspec-from-file=- with and without NUL separation for reset/add/commit/checkout/restore/stash/rm, commit -F -, hash-object --stdin, update-ref --stdin, cat-file --batch, notes/tag -F -, ...; the same bytes are fed to both twins), (c) a flag grammar for every command git-ai hooks (commit, reset, checkout, switch, restore, stash push/pop/apply/..., merge, rebase, cherry-pick, revert, pull, push, fetch, add, rm, mv, clean, worktree: random subsets of 4-28 real flags x revision targets x pathspec tails) run in a generated invocation context (repository root or sub-directory; GIT_INDEX_FILE, GIT_DIR, GIT_WORK_TREE, GIT_CONFIG_COUNT, GIT_LITERAL_PATHSPECS, GIT_REFLOG_ACTION ... in the environment), and human/agent file edits applied to both trees (agent checkpoints in B only). After every command: exit status equal, stdout byte-equal (one notes-fetch line after clone removed), and the state digest equal: HEAD, refs outside refs/notes/ai*, index, status v2, every working-tree file, stash, in-progress-operation files, the user hooks' log, remote refs, local config, hook directory, clone heads, the alternate index when one was used, linked worktrees. non-trivial = a hooked command ran with agent work pending, or the command failed in git, or used a global option/alias; distinct by case hash".into(),
+        rule: "twin sandboxes (A: real git, B: the git-ai wrapper) built identically - three files, a bare remote, configured aliases (plain, recursive, shell), a generated subset of user hooks (pre-commit, commit-msg, post-commit, post-checkout, post-merge, pre-rebase, post-rewrite; pre-commit optionally failing every other time) that log their arguments outside the repository - then 5-25 steps: git command lines drawn from (a) a table of ~170 templates (porcelain, plumbing, global options, aliases, remote operations, and deliberately invalid invocations), (b) a table of 35 commands that read standard input (--pathspec-from-file=- with and without NUL separation for reset/add/commit/checkout/restore/stash/rm, commit -F -, hash-object --stdin, update-ref --stdin, cat-file --batch, notes/tag -F -, ...; the same bytes are fed to both twins), (c) a flag grammar for every command git-ai hooks (commit, reset, checkout, switch, restore, stash push/pop/apply/..., merge, rebase, cherry-pick, revert, pull, push, fetch, add, rm, mv, clean, worktree: random subsets of 4-28 real flags x revision targets x pathspec tails) run in a generated invocation context (repository root or sub-directory; GIT_INDEX_FILE, GIT_DIR, GIT_WORK_TREE, GIT_CONFIG_COUNT, GIT_LITERAL_PATHSPECS, GIT_REFLOG_ACTION ... in the environment; standard input a pseudo-terminal while stdout stays captured), and human/agent file edits applied to both trees (agent checkpoints in B only). After every command: exit status equal, stdout byte-equal (one notes-fetch line after clone removed), and the state digest equal: HEAD, refs outside refs/notes/ai*, index, status v2, every working-tree file, stash, in-progress-operation files, the user hooks' log, remote refs, local config, hook directory, clone heads, the alternate index when one was used, linked worktrees. non-trivial = a hooked command ran with agent work pending, or the command failed in git, or used a global option/alias; distinct by case hash".into(),
         cases_quick: 252,
         cases_thorough: 3000,
         shrink_iters: 30,
